@@ -344,7 +344,7 @@ def m3_probe(F, R, tadt, hadt, name_of, verfield):
     bad = None
     for magic in (MAGIC, 0, MAGIC ^ 1, 0x76697274):
         for ver in (0, 1, 2, 3):
-            for dev in list(range(0, 30)) + [0xffffffff, 256 + 2]:
+            for dev in list(range(0, 30)) + [0xffffffff, 256 + 2, 0x10000 + 2, 0x80000001, 0xffff0019, 0x10000]:     # ids that are known types only after truncation
                 vals = {'MagicValue': magic, 'Version': ver, 'DeviceID': dev}
                 try:
                     r = tr.run({}, reads=lambda a, f, k, vals=vals: vals.get(name_of.get(f, f), 0))
